@@ -130,7 +130,11 @@ class Run:
             if len(self.cov["samples"]) < 6:
                 self.cov["samples"].append(s)
 
-    def violation(self, replay_obj, text, found_input=True):
+    def violation(self, replay_obj, text, found_input=None):
+        """found_input: True — the replay is an input on which the property itself fails (an oracle derived from the
+        property's text fails on the implementation); False — a proof obligation, the build or the extraction broke;
+        None — a correspondence between model and implementation broke (replay_obj names it under "broken"): that is
+        not by itself a failing input of the property; finish() decides from what else this run found."""
         d = os.path.join(VERIF, "work", "replay")
         os.makedirs(d, exist_ok=True)
         path = os.path.join(d, "%s_%d_%d.json" % (self.pid, self.seed, len(self.violations)))
@@ -138,8 +142,10 @@ class Run:
         replay_obj["property"] = self.pid
         replay_obj["seed"] = self.seed
         replay_obj["what"] = text
+        if found_input is None and "broken" not in replay_obj:
+            found_input = True
         common.write_json(path, replay_obj)
-        self.violations.append((path, text, found_input))
+        self.violations.append([path, text, found_input, replay_obj])
 
     def finish(self, theorems, checker_cmd, level="proof", extra_assumptions=()):
         obligations = len(theorems)
@@ -167,7 +173,20 @@ class Run:
                 print("KNOWN-FINDING: property=%s %s %s%s" % (self.pid, f["id"], f["what"],
                                                             "" if seen else " (not exercised by this run's inputs)"))
         self.cov["known_findings_reproduced"] = self.known_hits
-        for path, text, found in self.violations:
+        # a broken correspondence counts as "failing input found" only when this run's search (the property oracles,
+        # evaluated on every implementation run of the pass, the disagreeing ones included) produced one
+        any_found = any(v[2] is True for v in self.violations)
+        for v in self.violations:
+            if v[2] is None:
+                v[2] = any_found
+                v[3]["failing_input_search"] = (
+                    "a failing input of the property was found by this run: see the other replay files of this run"
+                    if any_found else
+                    "none found: the oracles derived from the property's text hold on every implementation run of this pass, "
+                    "including the runs on which model and implementation disagree; the property is no longer shown to hold "
+                    "because the correspondence named under 'broken' no longer checks")
+                common.write_json(v[0], v[3])
+        for path, text, found, _ in self.violations:
             print("VIOLATION property=%s replay=%s%s" % (self.pid, path, "" if found else " no-failing-input-found"))
             print("  " + text)
         return 1 if self.violations else 0
